@@ -197,9 +197,65 @@ func main() {
 		} else {
 			lib.Fatalf("%s: EnsureGatewayHealthCheck: parent of the health-check context not recognised", fEP)
 		}
+		// which context each call site of EnsureGatewayHealthCheck hands over: the update path (endpoint already in the
+		// map: the call inside `if ok { ... }`) and the create path (the other call) of addOrUpdateEndpoint
+		inUpdate := map[*ast.CallExpr]bool{}
+		ast.Inspect(aou.Body, func(x ast.Node) bool {
+			if is, ok := x.(*ast.IfStmt); ok {
+				if id, ok := is.Cond.(*ast.Ident); ok && id.Name == "ok" {
+					for _, c := range calls(is.Body, "EnsureGatewayHealthCheck") {
+						inUpdate[c] = true
+					}
+				}
+			}
+			return true
+		})
+		siteCtx := func(c *ast.CallExpr, where string) bool {
+			if len(c.Args) != 3 {
+				lib.Fatalf("%s: addOrUpdateEndpoint (%s path): EnsureGatewayHealthCheck is not called with (e, interval, ctx)", fCI, where)
+			}
+			epArg, ok := c.Args[0].(*ast.Ident)
+			if !ok {
+				lib.Fatalf("%s: addOrUpdateEndpoint (%s path): first argument of EnsureGatewayHealthCheck is not a variable", fCI, where)
+			}
+			switch {
+			case ctxOf(c.Args[2], epArg.Name) && epArg.Name != recvName(aou):
+				return true // the endpoint's own context
+			case ctxOf(c.Args[2], "") || detached(c.Args[2]):
+				return false // some other object's context (the cluster's), or a detached one
+			}
+			lib.Fatalf("%s: addOrUpdateEndpoint (%s path): context handed to EnsureGatewayHealthCheck not recognised", fCI, where)
+			return false
+		}
+		var nUpd, nNew int
+		hcAtUpdate, hcAtCreate := true, true
 		for _, c := range calls(aou.Body, "EnsureGatewayHealthCheck") {
-			if len(c.Args) != 3 || !ctxOf(c.Args[2], "") {
-				hcChild = false // the caller hands over something else than the endpoint's context
+			if inUpdate[c] {
+				nUpd++
+				hcAtUpdate = hcAtUpdate && siteCtx(c, "update")
+			} else {
+				nNew++
+				hcAtCreate = hcAtCreate && siteCtx(c, "create")
+			}
+		}
+		if nUpd == 0 || nNew == 0 {
+			lib.Fatalf("%s: addOrUpdateEndpoint: expected a call of EnsureGatewayHealthCheck on the update path and one on the create path (%d/%d)", fCI, nUpd, nNew)
+		}
+		// any other caller in the package must hand over an endpoint's context as well
+		for _, f := range []*ast.File{ci, ep} {
+			for _, d := range f.Decls {
+				fd, ok := d.(*ast.FuncDecl)
+				if !ok || fd.Body == nil || fd == aou {
+					continue
+				}
+				for _, c := range calls(fd.Body, "EnsureGatewayHealthCheck") {
+					if len(c.Args) != 3 {
+						lib.Fatalf("%s: unexpected call shape of EnsureGatewayHealthCheck in %s", fCI, fd.Name.Name)
+					}
+					if epArg, ok := c.Args[0].(*ast.Ident); !ok || !ctxOf(c.Args[2], epArg.Name) {
+						hcAtUpdate = false
+					}
+				}
 			}
 		}
 		start := must(lib.FuncDecl(ep, "", "startGatewayHealthCheck"), fEP, "startGatewayHealthCheck")
@@ -313,7 +369,9 @@ func main() {
 		w("endpointCtxChildOfCluster", epChild, fCI+": addOrUpdateEndpoint derives the endpoint context from the cluster context")
 		w("removedEndpointLeavesMap", leavesMap, fCI+": syncEndpoints takes removed endpoints out of ClusterInfo.Endpoints (LoadAndDelete)")
 		w("removedEndpointCancelled", cancelled, fCI+": syncEndpoints calls the removed endpoint's cancel function")
-		w("healthCheckCtxChildOfEndpoint", hcChild, fEP+": the health-check loops run under a context derived from the endpoint's and return when it ends")
+		w("healthCheckCtxChildOfEndpoint", hcChild, fEP+": EnsureGatewayHealthCheck derives the loops' context from its ctx argument and both goroutines return when it ends")
+		w("hcCtxAtCreateIsEndpoint", hcAtCreate, fCI+": addOrUpdateEndpoint, new endpoint: EnsureGatewayHealthCheck is handed the endpoint's own context (info.ctx)")
+		w("hcCtxAtUpdateIsEndpoint", hcAtUpdate, fCI+": addOrUpdateEndpoint, endpoint already known (disable / re-enable): EnsureGatewayHealthCheck is handed the endpoint's own context (info.ctx), so a restarted loop ends with the endpoint")
 		w("dispatcherWatchesEndpoint", watches, fDisp+": a goroutine cancels the proxied request when the picked endpoint's context ends")
 		sb.WriteString("end KG.Gen.C15\n")
 		g.Emit("C15.lean", sb.String())
